@@ -94,6 +94,7 @@ def _triple(case, ctx):
     ctx.count(1, key=hkey(tuple(case['seed'])), nontrivial=discarded or permuted,
               cell=('triple', dt, cols.dtype.name, 'trail%d' % len(trailing)))
     ctx.sample(desc, every=1999)
+    cols0, data0 = cols.copy(), data.copy()
     r = call(from_sparse, data, cols, ch.tolist() if as_list else ch)
     if not r.ok:
         ctx.violation('raised', desc, 'from_sparse raised %r' % r.exc, {'route': 'triple', 'exc': r.exc_name}, tb=r.tb)
@@ -106,6 +107,22 @@ def _triple(case, ctx):
     d = same(out[judged], exp[judged])
     if d:
         ctx.violation('densify_mismatch', desc, d, {'route': 'triple'})
+    # history: the same (data, cols) arrays are converted again for other channels; the caller's arrays must
+    # not have been altered by the first call
+    if not (np.array_equal(cols, cols0) and np.array_equal(data, data0, equal_nan=True)):
+        ctx.violation('inputs_modified', desc, 'from_sparse modified the arrays passed by the caller', {'route': 'triple'})
+        return
+    ch2 = rng.permutation(nchan + 2)[:int(rng.integers(1, nchan + 2))]
+    r2 = call(from_sparse, data, cols, ch2)
+    desc2 = dict(desc, channel_ids=ch2, second_call=True)
+    if not r2.ok:
+        ctx.violation('raised', desc2, 'second from_sparse call raised %r' % r2.exc, {'route': 'triple', 'exc': r2.exc_name}, tb=r2.tb)
+        return
+    exp2, judged2 = dense_ref(data0, cols0, ch2)
+    out2 = np.asarray(r2.value)
+    if out2.shape != exp2.shape or same(out2[judged2], exp2[judged2]):
+        ctx.violation('densify_mismatch', desc2, 'second call on the same arrays with other channels differs from the stored values',
+                      {'route': 'triple', 'second_call': True})
 
 
 def _model(case, ctx):
